@@ -21,6 +21,12 @@ func failedCallsFirst(st *Stats) {
 		return
 	}
 	st.Count("failed_calls_first")
+	// nothing in here may ever fail a case: a library that refuses one of the set-up values ends the
+	// sequence at that point, no more
+	catch(func() { failedCalls() })
+}
+
+func failedCalls() {
 	if poisonBig == nil {
 		poisonBig = at.NewList()
 		for i := 0; i < 320; i++ {
@@ -71,12 +77,6 @@ func failedCallsFirst(st *Stats) {
 	catch(func() { mixed.Sum() })
 	catch(func() { mixed.Prod() })
 	catch(func() { mixed.Avg() })
-	// text of values that have no JSON spelling
-	nonFinite := at.NewList(1, math.NaN(), at.NewObject("k", math.Inf(-1)))
-	catch(func() { _ = nonFinite.FormatString(2) })
-	catch(func() { _ = nonFinite.GetObject(2).FormatString(2) })
-	catch(func() { _ = nonFinite.String() })
-	catch(func() { _ = at.NewList(1).FormatString(11) })
 	// conversions that are refused below the top level, Sort outside its domain, wrong-kind getters
 	catch(func() { at.NewListFrom([]any{1, []any{2, map[string]any{"k": []any{struct{}{}}}}}) })
 	catch(func() { at.NewObjectFrom(map[string]any{"a": map[string]any{"b": make(chan int)}}) })
@@ -98,4 +98,10 @@ func failedCallsFirst(st *Stats) {
 	at.ParseObject(`{"key":tru`)
 	at.ParseObject(`{"k`)
 	at.ParseList("[\"\xff\"]")
+	// text of values that have no JSON spelling
+	nonFinite := at.NewList(1, math.NaN(), at.NewObject("k", math.Inf(-1)))
+	catch(func() { _ = nonFinite.FormatString(2) })
+	catch(func() { _ = nonFinite.GetObject(2).FormatString(2) })
+	catch(func() { _ = nonFinite.String() })
+	catch(func() { _ = at.NewList(1).FormatString(11) })
 }
